@@ -72,3 +72,8 @@ Fixpoint closed_result (runners : list (Z * Z * result)) (k : Z * Z) (acc : resu
   | nil => acc
   | cons (k', r) rest => closed_result rest k (if runner_key_eqb k k' then r else acc)
   end.
+(* the profit of an order after the closing book has been processed: the settlement terms with the result the lookup gives *)
+Definition with_result (s : settle_in) (r : result) : settle_in :=
+  {| st_side := st_side s; st_each_way := st_each_way s; st_div_n := st_div_n s; st_div_d := st_div_d s; st_line := st_line s; st_line_result := st_line_result s;
+     st_m := st_m s; st_a := st_a s; st_result := r; st_dead := st_dead s |}.
+Definition profit_at_close (tb : tiebreak) (rs : list (Z * Z * result)) (k : Z * Z) (s : settle_in) : Z := profit tb (with_result s (closed_result rs k RsNone)).
